@@ -109,7 +109,7 @@ TREES = []
 for _i in range(NTREE):
     _kind = ('html', 'html', 'html', 'xml', 'detached')[_i % 5]
     TREES.append((_kind,) + (tg.twin_tree(_r, _kind) if _i % 4 == 3 else tg.random_tree(_r, _kind)))
-for _name in ('plain_hp', 'plain_h5', 'multiroot_hp'):
+for _name in ('plain_hp', 'plain_h5', 'multiroot_hp', 'scripty_hp', 'scripty_lxml', 'scripty_h5'):
     TREES.append(('html', tg.doc(_name), None))
 NT = len(TREES)
 
